@@ -281,11 +281,22 @@ theorem setRemote_frame (pc : Pc) (d : Desc) :
 
 /-! ### create_offer / create_answer -/
 
+/-- `createOffer` = `createOfferEnv false`, written out: the single (first) bind site -/
+theorem createOffer_def (pc : Pc) : createOffer pc =
+    (if pc.sig ≠ .stable then (pc, .err .invalidState)
+     else if pc.trxs.isEmpty then (pc, .err .invalidState)
+     else if pc.bindFails && (pc.mode = .rtp || pc.mode = .srtp) then (pc, .err .internal)
+     else
+       let r := (List.range pc.trxs.length).foldl ensureMid (pc.trxs, pc.nextMid)
+       ({ pc with trxs := r.1, nextMid := r.2 }, .ok)) := by
+  unfold createOffer createOfferEnv
+  simp
+
 theorem createOffer_cases (pc : Pc) (hb : EnvOk pc) :
     (∃ e, createOffer pc = (pc, .err e) ∧ (pc.sig ≠ .stable ∨ pc.trxs = [])) ∨
     (pc.sig = .stable ∧ (createOffer pc).2 = .ok ∧
       createOffer pc = ({ pc with trxs := (createOffer pc).1.trxs, nextMid := (createOffer pc).1.nextMid }, .ok)) := by
-  unfold createOffer
+  rw [createOffer_def]
   by_cases h1 : pc.sig ≠ .stable
   · left; exact ⟨.invalidState, by simp [h1], Or.inl h1⟩
   · by_cases h2 : pc.trxs.isEmpty = true
@@ -319,7 +330,7 @@ theorem createOffer_frame (pc : Pc) :
     (createOffer pc).1.loc = pc.loc ∧ (createOffer pc).1.rem = pc.rem ∧ (createOffer pc).1.mode = pc.mode ∧
     (createOffer pc).1.dtlsStarted = pc.dtlsStarted ∧ (createOffer pc).1.remoteFp = pc.remoteFp ∧
     (createOffer pc).1.bindFails = pc.bindFails := by
-  unfold createOffer
+  rw [createOffer_def]
   split
   · simp
   · split
@@ -327,7 +338,7 @@ theorem createOffer_frame (pc : Pc) :
     · split <;> simp
 
 theorem createOffer_ok_stable (pc : Pc) (h : (createOffer pc).2 = .ok) : pc.sig = .stable := by
-  unfold createOffer at h
+  rw [createOffer_def] at h
   by_cases h1 : pc.sig ≠ .stable
   · simp [h1] at h
   · simpa using h1
@@ -362,7 +373,7 @@ connection exactly as it was (since the round-2 / round-3 fixes the direct modes
 assigned) -/
 theorem createOffer_err_atomic (pc : Pc) (e : Err) (h : (createOffer pc).2 = .err e) :
     createOffer pc = (pc, .err e) := by
-  unfold createOffer at h ⊢
+  rw [createOffer_def] at h ⊢
   split at h
   · rename_i h1; simp at h; subst h; simp [h1]
   · split at h
